@@ -3,6 +3,7 @@ package c11
 import (
 	"fmt"
 	"os"
+	"path"
 	"path/filepath"
 	"sort"
 	"strings"
@@ -29,6 +30,25 @@ type litterCase struct {
 	LockOn   string            `json:"lock_on"`   // table a competing holder has locked (timeout endings)
 	LongName bool              `json:"long_name"` // one table has a 236-249 byte file name (run with a short wait timeout)
 	Preload  int               `json:"preload"`   // the first Preload statements are not in the program but in ./csvqrc (run before it, same transaction)
+
+	// round 5 (sub-checks forms / places / sequences; all empty in the litter sub-check)
+	Files    map[string]string `json:"files,omitempty"`     // further files of the directory that are not tables (SOURCE scripts, a pre-existing --out file)
+	Args     []string          `json:"args,omitempty"`      // further command-line options (--cpu, --repository, ...)
+	OutRel   string            `json:"out_rel,omitempty"`   // --out is given as this path relative to the working directory instead of an absolute one
+	AlsoSig  bool              `json:"also_sig,omitempty"`  // endings error/exit/exitcode/commit_error: additionally signal at the points of that run (its clean-up included)
+	SigStep  int               `json:"sig_step,omitempty"`  // signal sweeps visit the points i with i % SigStep == SigOff (0: all) and every step of a commit
+	SigOff   int               `json:"sig_off,omitempty"`   //
+	Seconds  []secondSig       `json:"seconds,omitempty"`   // ending signals2: pairs of signals (first self-delivered at a point, second sent from outside)
+	TinyWait []string          `json:"tiny_wait,omitempty"` // ending tiny_timeout: values of --wait-timeout so small that the deadline expires inside an acquisition
+}
+
+// secondSig is one run of the ending signals2: the first signal is self-delivered at the point with index
+// At*len(points)/1000 of the plain run, the second is sent by the harness DelayMs after that point was logged.
+type secondSig struct {
+	At      int    `json:"at"` // permille position in the list of points
+	First   string `json:"first"`
+	Second  string `json:"second"`
+	DelayMs int    `json:"delay_ms"`
 }
 
 var cellPool = []string{"a", "b", "hello", "x y", "", "42", "3.5", "Z"}
@@ -46,7 +66,13 @@ func genTable(t *rapid.T, label string) string {
 	return b.String()
 }
 
-func genCase(t *rapid.T) litterCase {
+var litterEndings = []string{"signals", "signals", "signals", "success", "error", "exit", "exitcode", "timeout_lock", "timeout_rlock", "timeout_temp", "vanish_while_waiting"}
+
+func genCase(t *rapid.T) litterCase { return genCaseWith(t, litterEndings) }
+
+// genCaseWith is the generator of the litter sub-check with the list of endings as a parameter (the sequences
+// sub-check draws its programs from it with other endings).
+func genCaseWith(t *rapid.T, endings []string) litterCase {
 	c := litterCase{Tables: map[string]string{}}
 	names := []string{"t1.csv", "t2.csv", "t3.csv"}[:fw.Range(t, "ntables", 1, 3)]
 	if fw.Pct(t, "longName", 8) {
@@ -61,7 +87,7 @@ func genCase(t *rapid.T) litterCase {
 		c.Tables[n] = genTable(t, n)
 	}
 	c.ReadOnly = fw.Pct(t, "readonly", 35)
-	c.Ending = fw.PickU(t, "ending", []string{"signals", "signals", "signals", "success", "error", "exit", "exitcode", "timeout_lock", "timeout_rlock", "timeout_temp", "vanish_while_waiting"})
+	c.Ending = fw.PickU(t, "ending", endings)
 	ns := fw.Range(t, "nstmts", 1, 6)
 	tn := func() string { return "`" + fw.PickU(t, "target", names) + "`" }
 	ncreated := 0
@@ -186,8 +212,12 @@ const rcName = "csvqrc"
 // writeCase writes the tables and, for preload cases, the csvqrc file of the current directory.
 func writeCase(dir string, c litterCase) {
 	_ = run.WriteFiles(dir, c.Tables)
+	_ = run.WriteFiles(dir, c.Files)
 	old := time.Now().Add(-time.Hour)
 	for n := range c.Tables {
+		_ = os.Chtimes(filepath.Join(dir, n), old, old)
+	}
+	for n := range c.Files {
 		_ = os.Chtimes(filepath.Join(dir, n), old, old)
 	}
 	if c.Preload > 0 {
@@ -205,23 +235,87 @@ type fileID struct {
 }
 
 func statAll(dir string) map[string]fileID {
+	// the whole tree below dir: keys are slash-separated paths relative to dir
 	out := map[string]fileID{}
-	ents, _ := os.ReadDir(dir)
-	for _, e := range ents {
-		if e.IsDir() {
-			continue
+	_ = filepath.Walk(dir, func(p string, fi os.FileInfo, err error) error {
+		if err != nil || fi.IsDir() {
+			return nil
 		}
-		p := filepath.Join(dir, e.Name())
-		fi, err := os.Stat(p)
-		if err != nil {
-			continue
+		rel, e := filepath.Rel(dir, p)
+		if e != nil {
+			return nil
 		}
 		b, _ := os.ReadFile(p)
 		id := fileID{mtime: fi.ModTime(), bytes: string(b)}
 		if st, ok := fi.Sys().(*syscall.Stat_t); ok {
 			id.ino = st.Ino
 		}
-		out[e.Name()] = id
+		out[filepath.ToSlash(rel)] = id
+		return nil
+	})
+	return out
+}
+
+// isControl: the name (a path relative to the case directory) is a lock, read-lock or temp file of csvq.
+func isControl(n string) bool {
+	b := path.Base(n)
+	return strings.HasPrefix(b, ".") && (strings.HasSuffix(b, ".lock") || strings.HasSuffix(b, ".rlock") || strings.HasSuffix(b, ".temp"))
+}
+
+// ctl is the control file of a table (both as paths relative to the case directory): ".NAME<suffix>" next to it.
+func ctl(table string, suffix string) string {
+	return path.Join(path.Dir(table), "."+path.Base(table)+suffix)
+}
+
+// outKey is the --out file as a path relative to the case directory.
+func outKey(c litterCase) string {
+	if c.OutRel != "" {
+		return path.Clean(c.OutRel)
+	}
+	return "result.out"
+}
+
+// hasTxControl: the program contains an explicit COMMIT or ROLLBACK (possibly inside a block or a prepared text).
+func hasTxControl(c litterCase) bool {
+	for _, st := range c.Stmts {
+		if strings.Contains(st, "COMMIT") || strings.Contains(st, "ROLLBACK") {
+			return true
+		}
+	}
+	return false
+}
+
+// mustBeAbsent lists the created tables that cannot have been committed by an uninterrupted run that ended with
+// the given exit status: the run did not reach the automatic commit at the end of the program (a failing
+// statement; EXIT, which "terminates the executing procedure without commit"), and no COMMIT stands at or after
+// the statement that creates the table. Generated blocks (IF 1 = 1, WHILE that runs once, function bodies,
+// prepared and sourced texts) always execute their bodies, so the textual order is the execution order.
+func mustBeAbsent(c litterCase, code int) []string {
+	exits := false
+	for _, st := range c.Stmts {
+		exits = exits || strings.Contains(st, "EXIT")
+	}
+	if code == 0 && !exits {
+		return nil
+	}
+	var out []string
+	for _, n := range c.Creates {
+		first := -1
+		for i, st := range c.Stmts {
+			if first < 0 && strings.Contains(st, "CREATE TABLE") && (strings.Contains(st, "`"+path.Base(n)+"`") || strings.Contains(st, "/"+path.Base(n)+"`")) {
+				first = i
+			}
+		}
+		if first < 0 {
+			continue
+		}
+		later := false
+		for i := first; i < len(c.Stmts); i++ {
+			later = later || strings.Contains(c.Stmts[i], "COMMIT")
+		}
+		if !later {
+			out = append(out, n)
+		}
 	}
 	return out
 }
@@ -241,13 +335,15 @@ func (r runner) run(dir string, c litterCase, env []string, extraArgs ...string)
 	if res.TimedOut {
 		lastRetried = true
 		fw.AddExtra("watchdog_retries", 1)
-		ents, _ := os.ReadDir(dir)
 		keep := map[string][]byte{}
-		for _, e := range ents {
-			if _, isTable := c.Tables[e.Name()]; !isTable && strings.HasPrefix(e.Name(), ".") && len(c.LockOn) > 0 && strings.HasPrefix(e.Name(), "."+c.LockOn) {
-				keep[e.Name()] = nil
+		for n := range statAll(dir) {
+			if _, isTable := c.Tables[n]; !isTable && len(c.LockOn) > 0 && strings.HasPrefix(n, ctl(c.LockOn, "")) {
+				keep[n] = nil
 			}
-			_ = os.Remove(filepath.Join(dir, e.Name()))
+		}
+		ents, _ := os.ReadDir(dir)
+		for _, e := range ents {
+			_ = os.RemoveAll(filepath.Join(dir, e.Name()))
 		}
 		writeCase(dir, c)
 		for n := range keep {
@@ -264,8 +360,13 @@ func (r runner) runOnce(dir string, c litterCase, to time.Duration, env []string
 	defer os.Remove(src)
 	args := []string{"-q", "-s", src}
 	if c.Out != "" {
-		args = append(args, "--out", filepath.Join(dir, "result.out"))
+		if c.OutRel != "" {
+			args = append(args, "--out", c.OutRel)
+		} else {
+			args = append(args, "--out", filepath.Join(dir, "result.out"))
+		}
 	}
+	args = append(args, c.Args...)
 	args = append(args, extraArgs...)
 	if c.LongName && len(extraArgs) == 0 {
 		args = append(args, "--wait-timeout", "0.2")
@@ -290,7 +391,7 @@ func verdict(c litterCase, dir string, before map[string]fileID, committed map[s
 		if allowed[n] {
 			continue
 		}
-		if strings.HasPrefix(n, ".") && (strings.HasSuffix(n, ".lock") || strings.HasSuffix(n, ".rlock") || strings.HasSuffix(n, ".temp")) {
+		if isControl(n) {
 			litter = append(litter, n)
 		}
 	}
@@ -309,12 +410,7 @@ func verdict(c litterCase, dir string, before map[string]fileID, committed map[s
 	// a created table may only stay if its transaction was committed: in a program without explicit
 	// COMMIT/ROLLBACK there is exactly one (automatic) commit, so a surviving created table implies that
 	// every existing table shows its committed contents too
-	single := true
-	for _, st := range c.Stmts {
-		if st == "COMMIT" || st == "ROLLBACK" {
-			single = false
-		}
-	}
+	single := !hasTxControl(c)
 	if single && before != nil {
 		for _, n := range c.Creates {
 			if _, ok := after[n]; !ok {
@@ -328,7 +424,7 @@ func verdict(c litterCase, dir string, before map[string]fileID, committed map[s
 			}
 		}
 	}
-	if id, ok := after["result.out"]; ok && len(id.bytes) == 0 {
+	if id, ok := after[outKey(c)]; ok && len(id.bytes) == 0 && c.Out != "exists" {
 		return fw.V("empty_out_file_left:"+what, "%s: empty --out file was not removed", what)
 	}
 	for n := range c.Tables {
@@ -344,7 +440,7 @@ func verdict(c litterCase, dir string, before map[string]fileID, committed map[s
 			}
 		}
 		for n := range after {
-			if _, ok := before[n]; !ok && n != "result.out" && !allowed[n] {
+			if _, ok := before[n]; !ok && n != outKey(c) && !allowed[n] {
 				return fw.V("read_only_program_created_file:"+what, "%s: read-only program created %s", what, n)
 			}
 		}
@@ -354,6 +450,53 @@ func verdict(c litterCase, dir string, before map[string]fileID, committed map[s
 
 var sigNames = []string{"INT", "TERM", "QUIT"}
 var sigNums = map[string]int{"INT": 2, "TERM": 15, "QUIT": 3}
+var sigVals = map[string]syscall.Signal{"INT": syscall.SIGINT, "TERM": syscall.SIGTERM, "QUIT": syscall.SIGQUIT}
+
+// point is one line of the point log: the key "name#k" and the file the step works on.
+type point struct {
+	key  string
+	path string
+}
+
+func (p point) name() string { return strings.SplitN(p.key, "#", 2)[0] }
+
+// ext is the format of the file of a point when it is not CSV (fingerprints stay as they were for CSV tables).
+func (p point) ext() string {
+	e := strings.TrimPrefix(path.Ext(strings.TrimSuffix(strings.TrimSuffix(strings.TrimSuffix(p.path, ".lock"), ".temp"), ".rlock")), ".")
+	if e == "csv" || e == "" || len(e) > 5 {
+		return ""
+	}
+	return "|" + e
+}
+
+func readPoints(logp string) []point {
+	logb, _ := os.ReadFile(logp)
+	var points []point
+	for _, ln := range strings.Split(strings.TrimSpace(string(logb)), "\n") {
+		f := strings.SplitN(ln, "\t", 2)
+		if f[0] != "" {
+			pt := point{key: f[0]}
+			if len(f) > 1 {
+				pt.path = f[1]
+			}
+			points = append(points, pt)
+		}
+	}
+	return points
+}
+
+func fatalText(stderr string) bool {
+	return strings.Contains(stderr, "Fatal Error") || strings.Contains(stderr, "panic:") || strings.Contains(stderr, "goroutine ")
+}
+
+func okSignalCode(code int, sigs ...string) bool {
+	for _, s := range sigs {
+		if code == 128+sigNums[s] {
+			return true
+		}
+	}
+	return code == 0 || code == 8 || code == 3 || code == 64 || code == 70 || code == 1 || code == 16 || code == 4
+}
 
 func checkCase(c litterCase) (fw.Outcome, *fw.Violation) {
 	o := fw.Outcome{Classes: []string{"ending=" + c.Ending, fmt.Sprintf("readonly=%v", c.ReadOnly), "out=" + c.Out}}
@@ -362,6 +505,39 @@ func checkCase(c litterCase) (fw.Outcome, *fw.Violation) {
 	}
 	if c.LongName {
 		o.Classes = append(o.Classes, "long_table_name")
+	}
+	if c.AlsoSig {
+		o.Classes = append(o.Classes, "also_signals_after_"+c.Ending)
+	}
+	if c.OutRel != "" {
+		o.Classes = append(o.Classes, "out_relative")
+	}
+	for _, a := range c.Args {
+		if strings.HasPrefix(a, "--") {
+			o.Classes = append(o.Classes, "option"+a)
+		}
+	}
+	fmts := map[string]bool{}
+	for n := range c.Tables {
+		if e := path.Ext(n); e != ".csv" {
+			fmts[e] = true
+		}
+	}
+	for _, n := range c.Creates {
+		if e := strings.ToLower(path.Ext(n)); e != ".csv" {
+			fmts["created"+e] = true
+		}
+	}
+	for e := range fmts {
+		o.Classes = append(o.Classes, "format="+e)
+	}
+	for _, kw := range []string{"CHDIR", "SET @@REPOSITORY", "SOURCE", "PREPARE", "EXECUTE \"", "FUNCTION", "WHILE", "IF 1 = 1", "ALTER TABLE", "REPLACE INTO", "AS SELECT", "IF NOT EXISTS"} {
+		for _, st := range c.Stmts {
+			if strings.Contains(st, kw) {
+				o.Classes = append(o.Classes, "stmt:"+strings.TrimSuffix(kw, " \""))
+				break
+			}
+		}
 	}
 	bin, err := run.Binary(fw.WorkDir(), false)
 	if err != nil {
@@ -374,13 +550,16 @@ func checkCase(c litterCase) (fw.Outcome, *fw.Violation) {
 	if c.Preload > 0 {
 		prog = fmt.Sprintf("-- the first %d statement(s) are in ./csvqrc (preload), the rest is the program\n", c.Preload) + prog
 	}
+	if len(c.Args) > 0 {
+		prog = "-- options: " + strings.Join(c.Args, " ") + "\n" + prog
+	}
 
 	// reference run without interference: committed contents of created tables, list of points
 	dir := setup(c, "ref")
 	before := statAll(dir)
 	logp := filepath.Join(home, fmt.Sprintf("points-%d.log", atomic.AddInt64(&seq, 1)))
 	res := r.run(dir, c, []string{"VERIF_POINT_LOG=" + logp})
-	logb, _ := os.ReadFile(logp)
+	points := readPoints(logp)
 	_ = os.Remove(logp)
 	committed := map[string]string{}
 	for n, id := range statAll(dir) {
@@ -394,6 +573,17 @@ func checkCase(c litterCase) (fw.Outcome, *fw.Violation) {
 		_ = os.RemoveAll(dir)
 		v.Msg += "\nexit=" + fmt.Sprint(res.Code) + " stderr=" + res.Stderr + "\nprogram:\n" + prog
 		return o, v
+	}
+	// the uninterrupted run judged without a reference: a run that did not reach a commit keeps no created table
+	gone := mustBeAbsent(c, res.Code)
+	for _, n := range gone {
+		if id, ok := committed[n]; ok {
+			_ = os.RemoveAll(dir)
+			return o, fw.V("created_table_survives_uncommitted_run:"+c.Ending, "the run ended with exit status %d without a COMMIT after the creation of %s, yet the file exists (%q)\nstderr=%s\nprogram:\n%s", res.Code, n, id, res.Stderr, prog)
+		}
+	}
+	if len(gone) > 0 {
+		o.Classes = append(o.Classes, "created_then_not_committed")
 	}
 	_ = os.RemoveAll(dir)
 	switch c.Ending {
@@ -410,40 +600,139 @@ func checkCase(c litterCase) (fw.Outcome, *fw.Violation) {
 			// an earlier statement may fail first; only EXIT 3 itself is asserted
 			o.Classes = append(o.Classes, "exitcode_other")
 		}
+	case "commit_error":
+		if res.Code == 16 && strings.Contains(res.Stderr, "failed to commit") {
+			o.Classes = append(o.Classes, "commit_refused")
+		} else {
+			o.Classes = append(o.Classes, "commit_error_not_reached")
+		}
 	}
+	o.Classes = append(o.Classes, fmt.Sprintf("plain_run_exit=%d", res.Code))
 	evals := 1
 	handlerOpen := false
-	var points []string
-	for _, ln := range strings.Split(strings.TrimSpace(string(logb)), "\n") {
-		key := strings.SplitN(ln, "\t", 2)[0]
-		if key != "" {
-			points = append(points, key)
+
+	// sweep: one run per visited point of the plain run, with a signal self-delivered there
+	sweep := func(tag string) *fw.Violation {
+		for i, pt := range points {
+			if c.SigStep > 1 && i%c.SigStep != c.SigOff%c.SigStep && !strings.HasPrefix(pt.name(), "tx.commit") {
+				// the open/closed bookkeeping follows every point, visited or not
+				if strings.HasSuffix(pt.name(), ".ready") || pt.name() == "load.read" {
+					handlerOpen = true
+				}
+				if pt.name() == "tx.commit.end" || pt.name() == "tx.rollback.begin" {
+					handlerOpen = false
+				}
+				continue
+			}
+			sig := sigNames[i%3]
+			dir := setup(c, "sig")
+			before := statAll(dir)
+			res := r.run(dir, c, []string{"VERIF_SIGNAL_AT=" + pt.key + ":" + sig, "VERIF_SIGNAL_SETTLE_MS=15"})
+			evals++
+			what := "signal " + sig + " at " + pt.name()
+			if tag != "" {
+				what = tag + ", " + what
+			}
+			if res.TimedOut {
+				_ = os.RemoveAll(dir)
+				return fw.V("hang:"+what, "%s (%s): process did not terminate\n%s", what, pt.key, prog)
+			}
+			if res.Signaled {
+				_ = os.RemoveAll(dir)
+				return fw.V("killed_by_signal:"+what, "%s (%s): process died of the signal instead of cleaning up\n%s", what, pt.key, prog)
+			}
+			if v := verdict(c, dir, before, committed, what, nil); v != nil {
+				_ = os.RemoveAll(dir)
+				v.Msg += fmt.Sprintf("\npoint=%s exit=%d stderr=%s\nprogram:\n%s", pt.key, res.Code, res.Stderr, prog)
+				return v
+			}
+			_ = os.RemoveAll(dir)
+			if fatalText(res.Stderr) {
+				return fw.V("fatal_on_signal:"+what, "%s (%s): stderr %s\n%s", what, pt.key, res.Stderr, prog)
+			}
+			if !okSignalCode(res.Code, sig) {
+				return fw.V("exit_code_on_signal:"+what, "%s (%s): exit code %d\nstderr %s\n%s", what, pt.key, res.Code, res.Stderr, prog)
+			}
+			name := pt.name()
+			if strings.HasSuffix(name, ".ready") || name == "load.read" {
+				handlerOpen = true
+			}
+			if name == "tx.commit.end" || name == "tx.rollback.begin" {
+				handlerOpen = false
+			}
+			atFile := strings.HasPrefix(name, "h.") || strings.HasPrefix(name, "cf.") || strings.HasPrefix(name, "lock.") || strings.HasPrefix(name, "rlock.") || strings.HasPrefix(name, "tx.commit")
+			if tag == "" {
+				if res.Code == 128+sigNums[sig] && (handlerOpen || atFile) {
+					o.More = append(o.More, fmt.Sprintf("sig|%s|%s|ro=%v%s", sig, name, c.ReadOnly, pt.ext()))
+				}
+			} else if atFile || strings.HasPrefix(name, "tx.rollback") {
+				// a signal on top of another ending: non-trivial at the file steps, whichever of the two decides the exit status
+				o.More = append(o.More, fmt.Sprintf("%s+sig|%s|%s|ro=%v|signal_decides=%v%s", c.Ending, sig, name, c.ReadOnly, res.Code == 128+sigNums[sig], pt.ext()))
+			}
 		}
+		return nil
 	}
 
 	switch c.Ending {
-	case "timeout_lock", "timeout_rlock", "timeout_temp":
+	case "timeout_lock", "timeout_rlock", "timeout_temp", "timeout_flock_ex", "timeout_flock_sh":
 		dir := setup(c, "to")
-		held := "." + c.LockOn + ".lock"
+		held := ctl(c.LockOn, ".lock")
 		if c.Ending == "timeout_rlock" {
-			held = "." + c.LockOn + ".AbCdEfGhIjKl.rlock"
+			held = ctl(c.LockOn, ".AbCdEfGhIjKl.rlock")
 		}
 		if c.Ending == "timeout_temp" {
-			held = "." + c.LockOn + ".temp"
+			held = ctl(c.LockOn, ".temp")
 		}
-		_ = os.WriteFile(filepath.Join(dir, held), nil, 0600)
-		before := statAll(dir)
-		delete(before, held)
-		res := r.run(dir, c, nil, "--wait-timeout", "0.05")
-		evals++
-		if res.TimedOut {
-			_ = os.RemoveAll(dir)
-			return o, fw.V("hang", "run against a held lock did not terminate\n%s", prog)
-		}
-		if v := verdict(c, dir, before, committed, c.Ending, map[string]bool{held: true}); v != nil {
-			_ = os.RemoveAll(dir)
-			v.Msg += "\nexit=" + fmt.Sprint(res.Code) + " stderr=" + res.Stderr + "\nprogram:\n" + prog
-			return o, v
+		allowed := map[string]bool{held: true}
+		var res run.CLIRes
+		if strings.HasPrefix(c.Ending, "timeout_flock") {
+			// the competing holder has no control file (it is not a csvq, or it is a csvq between two steps) but holds
+			// the advisory lock of the table file itself: csvq obtains its control files and then cannot lock the file
+			held, allowed = "", nil
+			fp, e := os.OpenFile(filepath.Join(dir, c.LockOn), os.O_RDWR, 0)
+			if e != nil {
+				_ = os.RemoveAll(dir)
+				return o, fw.Harness("open for flock: %v", e)
+			}
+			how := syscall.LOCK_EX
+			if c.Ending == "timeout_flock_sh" {
+				how = syscall.LOCK_SH
+			}
+			if e := syscall.Flock(int(fp.Fd()), how|syscall.LOCK_NB); e != nil {
+				_ = fp.Close()
+				_ = os.RemoveAll(dir)
+				return o, fw.Harness("flock: %v", e)
+			}
+			before := statAll(dir)
+			lastRetried = false
+			res = r.runOnce(dir, c, 120*time.Second, nil, "--wait-timeout", "0.05")
+			_ = syscall.Flock(int(fp.Fd()), syscall.LOCK_UN)
+			_ = fp.Close()
+			evals++
+			if res.TimedOut {
+				_ = os.RemoveAll(dir)
+				return o, fw.V("hang", "run against a table whose file is locked (flock) did not terminate\n%s", prog)
+			}
+			if v := verdict(c, dir, before, committed, c.Ending, nil); v != nil {
+				_ = os.RemoveAll(dir)
+				v.Msg += "\nexit=" + fmt.Sprint(res.Code) + " stderr=" + res.Stderr + "\nprogram:\n" + prog
+				return o, v
+			}
+		} else {
+			_ = os.WriteFile(filepath.Join(dir, held), nil, 0600)
+			before := statAll(dir)
+			delete(before, held)
+			res = r.run(dir, c, nil, "--wait-timeout", "0.05")
+			evals++
+			if res.TimedOut {
+				_ = os.RemoveAll(dir)
+				return o, fw.V("hang", "run against a held lock did not terminate\n%s", prog)
+			}
+			if v := verdict(c, dir, before, committed, c.Ending, allowed); v != nil {
+				_ = os.RemoveAll(dir)
+				v.Msg += "\nexit=" + fmt.Sprint(res.Code) + " stderr=" + res.Stderr + "\nprogram:\n" + prog
+				return o, v
+			}
 		}
 		if strings.Contains(res.Stderr, "Fatal Error") || strings.Contains(res.Stderr, "panic:") {
 			_ = os.RemoveAll(dir)
@@ -452,13 +741,57 @@ func checkCase(c litterCase) (fw.Outcome, *fw.Violation) {
 		_ = os.RemoveAll(dir)
 		if res.Code == 8 {
 			o.Fingerprint = fmt.Sprintf("%s|ro=%v|out=%s|n=%d", c.Ending, c.ReadOnly, c.Out, len(c.Stmts))
+			if e := path.Ext(c.LockOn); e != ".csv" {
+				o.Fingerprint += "|" + e
+			}
+		}
+	case "tiny_timeout":
+		// no competitor at all: the wait timeout is so short that the deadline passes somewhere inside an
+		// acquisition (lock taken, file not yet opened; file opened, temp file not yet created; ...)
+		for _, w := range c.TinyWait {
+			dir := setup(c, "tiny")
+			before := statAll(dir)
+			logp := filepath.Join(home, fmt.Sprintf("points-%d.log", atomic.AddInt64(&seq, 1)))
+			res := r.run(dir, c, []string{"VERIF_POINT_LOG=" + logp}, "--wait-timeout", w)
+			pts := readPoints(logp)
+			_ = os.Remove(logp)
+			evals++
+			if res.TimedOut {
+				_ = os.RemoveAll(dir)
+				return o, fw.V("hang", "run with --wait-timeout %s did not terminate\n%s", w, prog)
+			}
+			if v := verdict(c, dir, before, committed, c.Ending, nil); v != nil {
+				_ = os.RemoveAll(dir)
+				v.Msg += fmt.Sprintf("\n--wait-timeout %s exit=%d stderr=%s\nprogram:\n%s", w, res.Code, res.Stderr, prog)
+				return o, v
+			}
+			_ = os.RemoveAll(dir)
+			if fatalText(res.Stderr) {
+				return o, fw.V("fatal_on_lock_timeout", "--wait-timeout %s: stderr: %s\n%s", w, res.Stderr, prog)
+			}
+			if res.Code == 8 {
+				// where the deadline struck: the last acquisition step the run began
+				last := "none"
+				for _, pt := range pts {
+					n := pt.name()
+					if strings.HasPrefix(n, "h.") && !strings.HasPrefix(n, "h.close") || strings.HasPrefix(n, "lock.") || strings.HasPrefix(n, "rlock.") || strings.HasPrefix(n, "temp.") {
+						last = n
+					}
+				}
+				o.More = append(o.More, fmt.Sprintf("tiny|%s|ro=%v", last, c.ReadOnly))
+			} else {
+				o.Classes = append(o.Classes, "tiny_timeout_not_struck")
+			}
+		}
+		if len(o.More) > 0 {
+			o.Fingerprint = o.More[0]
 		}
 	case "vanish_while_waiting":
 		// a competing holder has the table locked; while csvq waits for it the table file disappears (the
 		// holder had created it and rolls back) and the lock is released: csvq obtains the lock, finds no
 		// file, and must give the lock back
 		dir := setup(c, "vanish")
-		held := "." + c.LockOn + ".lock"
+		held := ctl(c.LockOn, ".lock")
 		_ = os.WriteFile(filepath.Join(dir, held), nil, 0600)
 		logp := filepath.Join(home, fmt.Sprintf("points-%d.log", atomic.AddInt64(&seq, 1)))
 		acted := make(chan bool, 1)
@@ -525,52 +858,68 @@ func checkCase(c litterCase) (fw.Outcome, *fw.Violation) {
 			o.Classes = append(o.Classes, "vanish_not_reached")
 		}
 	case "signals":
-		for i, pt := range points {
-			sig := sigNames[i%3]
-			dir := setup(c, "sig")
+		if v := sweep(""); v != nil {
+			return o, v
+		}
+		if len(o.More) > 0 {
+			o.Fingerprint = o.More[0]
+		}
+	case "signals2":
+		// two signals: the first self-delivered at a point, the second sent from outside a drawn time after
+		// that point was logged (the process rests 15 ms at the point, then cleans up: the second signal falls
+		// before, into, or after the clean-up that the first one started)
+		for _, s2 := range c.Seconds {
+			if len(points) == 0 {
+				break
+			}
+			pt := points[(s2.At*len(points)/1000)%len(points)]
+			dir := setup(c, "sig2")
 			before := statAll(dir)
-			res := r.run(dir, c, []string{"VERIF_SIGNAL_AT=" + pt + ":" + sig, "VERIF_SIGNAL_SETTLE_MS=15"})
+			res, sent := r.runSecond(dir, c, pt.key, s2)
 			evals++
-			what := "signal " + sig + " at " + strings.SplitN(pt, "#", 2)[0]
+			what := "second signal"
+			detail := fmt.Sprintf("%s at %s, then %s from outside %d ms later", s2.First, pt.key, s2.Second, s2.DelayMs)
 			if res.TimedOut {
 				_ = os.RemoveAll(dir)
-				return o, fw.V("hang:"+what, "%s (%s): process did not terminate\n%s", what, pt, prog)
+				return o, fw.V("hang:"+what, "%s: process did not terminate\n%s", detail, prog)
 			}
 			if res.Signaled {
+				v := verdict(c, dir, before, committed, what, nil)
 				_ = os.RemoveAll(dir)
-				return o, fw.V("killed_by_signal:"+what, "%s (%s): process died of the signal instead of cleaning up\n%s", what, pt, prog)
+				left := ""
+				if v != nil {
+					left = "; " + v.Msg
+				}
+				return o, fw.V("killed_by_signal:"+what, "%s: process died of signal %v instead of cleaning up%s\n%s", detail, res.Signal, left, prog)
 			}
 			if v := verdict(c, dir, before, committed, what, nil); v != nil {
 				_ = os.RemoveAll(dir)
-				v.Msg += fmt.Sprintf("\npoint=%s exit=%d stderr=%s\nprogram:\n%s", pt, res.Code, res.Stderr, prog)
+				v.Msg += fmt.Sprintf("\n%s exit=%d stderr=%s\nprogram:\n%s", detail, res.Code, res.Stderr, prog)
 				return o, v
 			}
 			_ = os.RemoveAll(dir)
-			if strings.Contains(res.Stderr, "Fatal Error") || strings.Contains(res.Stderr, "panic:") || strings.Contains(res.Stderr, "goroutine ") {
-				return o, fw.V("fatal_on_signal:"+what, "%s (%s): stderr %s\n%s", what, pt, res.Stderr, prog)
+			if fatalText(res.Stderr) {
+				return o, fw.V("fatal_on_signal:"+what, "%s: stderr %s\n%s", detail, res.Stderr, prog)
 			}
-			okCode := res.Code == 0 || res.Code == 8 || res.Code == 128+sigNums[sig] || res.Code == 3 || res.Code == 64 || res.Code == 70 || res.Code == 1 || res.Code == 16 || res.Code == 4
-			if !okCode {
-				return o, fw.V("exit_code_on_signal:"+what, "%s (%s): exit code %d\nstderr %s\n%s", what, pt, res.Code, res.Stderr, prog)
+			if !okSignalCode(res.Code, s2.First, s2.Second) {
+				return o, fw.V("exit_code_on_signal:"+what, "%s: exit code %d\nstderr %s\n%s", detail, res.Code, res.Stderr, prog)
 			}
-			name := strings.SplitN(pt, "#", 2)[0]
-			if strings.HasSuffix(name, ".ready") || name == "load.read" {
-				handlerOpen = true
-			}
-			if name == "tx.commit.end" || name == "tx.rollback.begin" {
-				handlerOpen = false
-			}
-			if res.Code == 128+sigNums[sig] && (handlerOpen || strings.HasPrefix(name, "h.") || strings.HasPrefix(name, "cf.") || strings.HasPrefix(name, "lock.") || strings.HasPrefix(name, "rlock.") || strings.HasPrefix(name, "tx.commit")) {
-				o.More = append(o.More, fmt.Sprintf("sig|%s|%s|ro=%v", sig, name, c.ReadOnly))
+			if sent {
+				o.Classes = append(o.Classes, "second_signal_sent_to_live_process")
+				if res.Code == 128+sigNums[s2.First] || res.Code == 128+sigNums[s2.Second] {
+					o.More = append(o.More, fmt.Sprintf("sig2|%s|%s|%s|ro=%v", s2.First, s2.Second, pt.name(), c.ReadOnly))
+				}
+			} else {
+				o.Classes = append(o.Classes, "second_signal_too_late")
 			}
 		}
 		if len(o.More) > 0 {
 			o.Fingerprint = o.More[0]
 		}
 	default:
-		// success / error / exit: the plain run above was the run; non-trivial if a handler was opened before the end
+		// success / error / exit / commit_error: the plain run above was the run; non-trivial if a handler was opened before the end
 		for _, pt := range points {
-			if strings.Contains(pt, ".ready#") {
+			if strings.Contains(pt.key, ".ready#") {
 				handlerOpen = true
 			}
 		}
@@ -580,14 +929,77 @@ func checkCase(c litterCase) (fw.Outcome, *fw.Violation) {
 		if c.Ending == "exit" && handlerOpen {
 			o.Fingerprint = fmt.Sprintf("exit|ro=%v|out=%s|creates=%d|n=%d", c.ReadOnly, c.Out, len(c.Creates), len(c.Stmts))
 		}
+		if c.AlsoSig {
+			handlerOpen = false
+			if v := sweep("after " + c.Ending); v != nil {
+				return o, v
+			}
+			if o.Fingerprint == "" && len(o.More) > 0 {
+				o.Fingerprint = o.More[0]
+			}
+		}
 	}
 	o.Evals = evals
 	return o, nil
 }
 
+// runSecond runs the program with the first signal self-delivered at the point key and sends the second one from
+// outside DelayMs after the line of that point appeared in the point log. sent: the signal call succeeded, i.e. the
+// process had not been reaped yet.
+func (r runner) runSecond(dir string, c litterCase, key string, s2 secondSig) (run.CLIRes, bool) {
+	lastRetried = false
+	src := filepath.Join(r.home, fmt.Sprintf("prog-%d.sql", atomic.AddInt64(&seq, 1)))
+	_ = os.WriteFile(src, []byte(strings.Join(c.Stmts[c.Preload:], ";\n")+";\n"), 0644)
+	defer os.Remove(src)
+	logp := filepath.Join(r.home, fmt.Sprintf("points-%d.log", atomic.AddInt64(&seq, 1)))
+	defer os.Remove(logp)
+	args := []string{"-q", "-s", src}
+	if c.Out != "" {
+		if c.OutRel != "" {
+			args = append(args, "--out", c.OutRel)
+		} else {
+			args = append(args, "--out", filepath.Join(dir, "result.out"))
+		}
+	}
+	args = append(args, c.Args...)
+	if c.LongName {
+		args = append(args, "--wait-timeout", "0.2")
+	}
+	stop := make(chan struct{})
+	sent := make(chan bool, 1)
+	watching := false
+	started := func(p *os.Process) {
+		watching = true
+		go func() {
+			for {
+				select {
+				case <-stop:
+					sent <- false
+					return
+				default:
+				}
+				b, _ := os.ReadFile(logp)
+				if strings.Contains("\n"+string(b), "\n"+key+"\t") {
+					time.Sleep(time.Duration(s2.DelayMs) * time.Millisecond)
+					sent <- p.Signal(sigVals[s2.Second]) == nil
+					return
+				}
+				time.Sleep(300 * time.Microsecond)
+			}
+		}()
+	}
+	res := run.CLI(run.CLIOpt{Bin: r.bin, Dir: dir, Home: r.home, Args: args, Timeout: 120 * time.Second, OnStart: started,
+		Env: []string{"VERIF_POINT_LOG=" + logp, "VERIF_SIGNAL_AT=" + key + ":" + s2.First, "VERIF_SIGNAL_SETTLE_MS=15"}})
+	close(stop)
+	if !watching {
+		return res, false
+	}
+	return res, <-sent
+}
+
 func TestC11Litter(t *testing.T) {
 	fw.Run(t, fw.Spec[litterCase]{
-		ID: "C11", Name: "litter", Quick: 320, Thorough: 6400,
+		ID: "C11", Name: "litter", Quick: 320, Thorough: 4400,
 		Gen: genCase, Check: checkCase,
 		Rule: "generated programs (35% read-only: SELECT/JOIN/GROUP BY/cursors; else DML, CREATE TABLE, FOR UPDATE, COMMIT, ROLLBACK) x ending: success | failing statement at a drawn position | EXIT | EXIT 3 | lock timeout against a held .lock/.rlock with --wait-timeout 0.05 (or a stale .temp file) | SIGINT/SIGTERM/SIGQUIT self-delivered at EVERY verification point the plain run passes (signal kind rotates over the points), optionally with --out (empty/non-empty). Oracle after each process exit: it exited by itself; no .lock/.rlock/.temp files; a created table exists only in its committed form; an empty --out file is gone; for read-only programs every file has identical bytes, inode and mtime. evaluations = process runs; non-trivial = abnormal ending with a file handler open / a signal that terminated the run at a lib/file or commit point, distinct by (signal, point, read-only) or (ending, flags)",
 		Assumptions: []string{"signal delivery 'at a moment' = the process signals itself at a hooked point and waits 15 ms so the runtime's handler has run before the next step",
